@@ -316,7 +316,9 @@ fn history_cases(depth: usize, baseline: Arc<Vec<String>>) -> Vec<Box<dyn Case>>
 // ---------------------------------------------------------------------------------------------------------------
 // (b) schedules on shared parameters (in-process; the cached arrays are already initialised)
 
-pub const SOPS: [&str; 6] = ["proveA", "proveB", "verify-valid", "verify-invalid", "clone-drop-params", "build-other-capacity"];
+pub const SOPS: [&str; 7] = ["proveA", "proveB", "verify-valid", "verify-invalid", "clone-drop-params", "build-other-capacity", "verify-long-two-defects"];
+/// the ops paired with one another exhaustively (the long batch is paired with selected ops only)
+const SOPS_PAIRED: usize = 6;
 
 struct Shared<P: G> {
     params: RangeParameters<P>,
@@ -375,6 +377,20 @@ fn shared_op<P: G>(op: &str, sh: &Shared<P>) -> Vec<u8> {
             let (st, bytes) = if op == "verify-valid" { &sh.valid } else { &sh.invalid };
             let proof = P::from_bytes(bytes).unwrap();
             verify_bytes(&[st.clone()], &[proof], &[CTX_A], VerifyAction::VerifyOnly)
+        },
+        "verify-long-two-defects" => {
+            // 160 members (below the chunk limit): member 10 is a well-formed proof of the wrong statement (caught by the final
+            // check only), member 150 carries a point that does not decode. Which of the two errors is reported is part of
+            // the call's result and must not depend on what other threads are doing.
+            let len = 160usize;
+            let mut sts = vec![sh.valid.0.clone(); len];
+            sts[10] = sh.invalid.0.clone();
+            let mut rp = refbp::ref_decode(&sh.valid.1).expect("wire form");
+            rp.a1 = [0xffu8; 32];
+            let bad_bytes = refbp::ref_encode(&rp);
+            let proofs: Vec<_> = (0..len).map(|i| P::from_bytes(if i == 150 { &bad_bytes } else { &sh.valid.1 }).unwrap()).collect();
+            let ctxs = vec![CTX_A; len];
+            verify_bytes(&sts, &proofs, &ctxs, VerifyAction::VerifyOnly)
         },
         "clone-drop-params" => {
             let p2 = sh.params.clone();
@@ -445,12 +461,19 @@ fn shared_schedule_case_full<P: G>(ops: Vec<usize>, bound: usize, alloc_points: 
         let x0 = run_one(&[]);
         let x1 = run_one(&x0.choices());
         if x0.results != x1.results || x0.choices() != x1.choices() {
+            if !crate::engine::exclusive() {
+                // other cases run in this process at the same time: process-wide state in the subject would explain it.
+                // Ask for a rerun with nothing else running.
+                res.retry_exclusive = true;
+                res.outcome = "rerun-requested".into();
+                return res;
+            }
             res.machinery_error("replaying the default schedule is not deterministic");
             return res;
         }
         let stats = sched::explore(
             bound,
-            2,
+            if crate::engine::exclusive() { 1 } else { 2 },
             |prefix| Ok(run_one(prefix)),
             |x| {
                 for (t, r) in x.results.iter().enumerate() {
@@ -687,7 +710,7 @@ pub fn run(rep: &mut Report) {
     rep.rule = "(a) every sequence over the 18-op alphabet {build params for 16 parties, degree-6 seeded prove, recovery (right / other seed) from a degree-6 proof made elsewhere, build params x3, prove A/B, prove with a witness that does not open the commitment, verify valid/invalid, seeded recover, batch of two, batch abandoned at \
                 its second member (wrong round count / undecodable point), pedersen gens, drop-all} of length <= 3 (thorough 4), one fresh process per sequence, each op's serialised result against \
                 its result alone in a fresh process (and a second fresh process); (b) every pair (thorough: also triples) of ops {prove A, \
-                prove B, verify valid, verify invalid, clone+drop params, build other capacity} on threads sharing one parameter object, \
+                prove B, verify valid, verify invalid, clone+drop params, build other capacity} on threads sharing one parameter object (plus a 160-member batch with two different defects racing a short verification, one preemption), \
                 every schedule with <= 2 (thorough 3) preemptions over the merlin / group-backend scheduling points, on F and Ristretto; \
                 (c) racing first use of the cached generator arrays by a prove and a verify, one fresh process per schedule"
         .into();
@@ -745,8 +768,8 @@ pub fn run(rep: &mut Report) {
     let mut cases: Vec<Box<dyn Case>> = Vec::new();
     // unordered pairs: with two threads and a free first choice, the schedules of (a, b) and (b, a) are the same
     // interleavings up to renaming the threads, and the preemption count is symmetric
-    for a in 0..SOPS.len() {
-        for b in a..SOPS.len() {
+    for a in 0..SOPS_PAIRED {
+        for b in a..SOPS_PAIRED {
             // coarse scheduling points (challenge draws, RNG finalisation, shared table, once-cell events): bound 2 / 3
             cases.push(shared_schedule_case::<F>(vec![a, b], bound));
             cases.push(shared_schedule_case::<RistrettoPoint>(vec![a, b], bound));
@@ -760,13 +783,21 @@ pub fn run(rep: &mut Report) {
             }
         }
     }
+    // a long batch with two different defects racing a short verification (and, thorough, a prove / itself): one preemption
+    // anywhere at the coarse points of either call
+    cases.push(shared_schedule_case_tagged::<F>(vec![6, 2], 1, "/long-batch"));
+    if thorough {
+        cases.push(shared_schedule_case_tagged::<F>(vec![6, 0], 1, "/long-batch"));
+        cases.push(shared_schedule_case_tagged::<F>(vec![6, 6], 1, "/long-batch"));
+        cases.push(shared_schedule_case_tagged::<RistrettoPoint>(vec![6, 2], 1, "/long-batch"));
+    }
     rep.explore("C18", cases);
     if thorough {
         // every transcript operation and every group operation a scheduling point, bound 2
         sched::set_fine(true);
         let mut fine: Vec<Box<dyn Case>> = Vec::new();
-        for a in 0..SOPS.len() {
-            for b in a..SOPS.len() {
+        for a in 0..SOPS_PAIRED {
+            for b in a..SOPS_PAIRED {
                 fine.push(shared_schedule_case_tagged::<F>(vec![a, b], 2, "/every-transcript-and-group-op"));
                 fine.push(shared_schedule_case_tagged::<RistrettoPoint>(vec![a, b], 2, "/every-transcript-and-group-op"));
             }
